@@ -18,6 +18,7 @@ import OFV.Proofs.SpecBoson
 import OFV.Proofs.C01Program
 import OFV.Proofs.C01Expr
 import OFV.Proofs.C01ExprInst
+import OFV.Proofs.C01ExprMaj
 
 namespace OFV.C01
 open OFV OFV.Spec OFV.Generated OFV.Model
@@ -499,6 +500,21 @@ theorem expr_hom_qubit_mel (tol : Rat) (e : Expr) (he : Exact tol .qubit Actions
     rw [if_pos h', if_pos h]; exact GQ.mul_one' _
   · have h' : ¬ maskOf [(actPTerm τ m).2] = t := h
     rw [if_neg h', if_neg h]; exact GQ.mul_zero' _
+
+open ExprHom in
+/-- **The same for MajoranaOperator** (sixth class; its own `__mul__` with the signed merge, `+`/`-` that
+never delete, `**`): every finite expression tree whose leaves hold strictly increasing index tuples
+evaluates to a dictionary with strictly increasing keys (canonical form) that denotes exactly the linear map
+the Spec — the Clifford algebra acting on Fock space — assigns to the tree.  No exact-regime hypothesis. -/
+theorem expr_hom_majorana (e : Expr) (he : CanonMaj e) :
+    (∀ k ∈ evalMaj e, k.1.Pairwise (· < ·)) ∧
+    ∀ (s : St) (g : St → GQ), (∀ s, g (normBit s) = g s) →
+      pair (e.apply .majorana [(s, 1)]) g = den (mtermPair s g) (evalMaj e) :=
+  expr_hom_maj e he
+
+example : ExprHom.CanonMaj (.pow (.sub (.mul (.leaf [([(0, 0), (3, 0)], 1)]) (.leaf [([(1, 0)], GQ.I)]))
+    (.leaf [([], 2)])) 3) := by
+  refine ⟨⟨?_, ?_⟩, ?_⟩ <;> intro e he <;> simp [toM] at he <;> subst he <;> decide
 
 /- non-vacuity: `((X0 + Z2·i) * X0) ** 2`-shaped tree in the exact regime at the live tolerance -/
 example : ExprHom.Exact GQ.eqTol .qubit ActionsOk
